@@ -1,11 +1,13 @@
 #!/bin/sh
-# thorough tier of every check with another root seed; evidence and replays go to scratch directories
-# usage: tools/soak.sh <seed> [budget_s]
+# thorough tier of the given checks (default: all) with another root seed; evidence and replays go to scratch directories
+# usage: tools/soak.sh <seed> [budget_s] [checks...]
 seed=${1:-31}
 budget=${2:-1100}
+shift 2 2>/dev/null
+checks=${*:-C02 C03 C07 C08 C09 C10 C11 C12 C13 C15 C16 C18 C20}
 cd "$(dirname "$0")/.."
-for c in C02 C03 C07 C08 C09 C10 C11 C12 C13 C15 C16 C18 C20; do
+for c in $checks; do
   VERIF_SEED=$seed VERIF_BUDGET_S=$budget VERIF_EVIDENCE_DIR=/tmp/soak_ev_$seed VERIF_REPLAY_DIR=/tmp/soak_rp_$seed \
     /venv/bin/python -m dst check $c --tier thorough 2>&1 | tail -4 | cut -c1-600
-  echo "rc($c)=$?"
+  echo "done($c)"
 done
